@@ -448,6 +448,11 @@ func drawC20Call(t *rapid.T) c20Call {
 	}
 	c.Sp = gen.DrawSpelling(t)
 	c.Dig = rapid.SampledFrom([]string{"6", "8", "9", "10", "6", "8", "10", "7", "06", "six", "11", " 6"}).Draw(t, "dig")
+	if rapid.IntRange(0, 9).Draw(t, "digOddQ") == 0 {
+		// unknown spellings that another language's integer parser reads as 8, 9 or 10 (octal, hex, signs, fractions, blanks,
+		// full-width): here they are unknown words
+		c.Dig = rapid.SampledFrom([]string{"010", "011", "012", "0x8", "0X9", "0xA", "#8", "+8", "8.0", "08", "8 ", "１０", "1e1", "0b1000", "0o10", "8\n", "10\x00"}).Draw(t, "digOdd")
+	}
 	c.Alg = rapid.SampledFrom([]string{"SHA1", "SHA256", "SHA512", "SHA1", "SHA256", "SHA512", "sha1", "MD5", "SHA-512"}).Draw(t, "alg")
 	// unknown spellings that a table of hashed option words would take for known ones (stored preimages under cheap 32-bit
 	// hashes): they mean what any unknown spelling means — the native library's helpers decide
@@ -479,7 +484,7 @@ func drawC20Call(t *rapid.T) c20Call {
 	}
 	if strings.HasPrefix(c.Fn, "validate") {
 		c.Dist = rapid.IntRange(-c.Skew-2, c.Skew+2).Draw(t, "dist")
-		c.Mut = rapid.SampledFrom([]int{0, 0, 0, 0, 1, 2, 3, 4, 5, 6, 7, 8, 8, 9}).Draw(t, "mut")
+		c.Mut = rapid.SampledFrom([]int{0, 0, 0, 0, 1, 2, 3, 4, 5, 6, 7, 8, 8, 9, 10, 11}).Draw(t, "mut")
 		if rapid.IntRange(0, 5).Draw(t, "sibDigQ") == 0 {
 			c.SibDig = rapid.SampledFrom([]int{6, 8, 9, 10, 7}).Draw(t, "sibDig")
 		}
